@@ -116,7 +116,8 @@ def run_one(sim, params):
     import errno as E
     import nfc.llcp
     k = kernel.Kernel(sim, preempt_p=sim.pick("preempt", [0.0, 0.0, 0.03]), max_steps=500000, max_sim_s=2000.0)
-    pair = w5.LlcPair(nfc, k, {"miu": 248, "lto": 2000}, {"miu": 248, "lto": 2000}, latency=0.001)
+    link_miu = sim.pick("link.miu", [248, 128])       # with 128 two long service names do not fit one SNL PDU
+    pair = w5.LlcPair(nfc, k, {"miu": link_miu, "lto": 2000}, {"miu": link_miu, "lto": 2000}, latency=0.001)
     TYPES = {"ldl": nfc.llcp.LOGICAL_DATA_LINK, "dlc": nfc.llcp.DATA_LINK_CONNECTION, "raw": nfc.llcp.llc.RAW_ACCESS_POINT}
     desc = {"ops": []}
     hist = desc["ops"]
@@ -380,17 +381,26 @@ def run_one(sim, params):
                 names = [b"urn:nfc:xsn:dsim.x:q%d" % ucount[0]]
                 ucount[0] += 1
                 names.append(bound[0] if bound and sim.chance("resolve2.bound", 0.6) else b"urn:nfc:xsn:dsim.x:q%d" % ucount[0])
+                if sim.chance("resolve2.three_long", 0.4):
+                    # three threads, names so long that the requests do not fit one SNL PDU: the answers come in
+                    # another order than the threads began to wait
+                    ucount[0] += 3
+                    names = [b"urn:nfc:xsn:dsim.x:" + b"a%d" % (ucount[0] - 2) + b"l" * 76,
+                             b"urn:nfc:xsn:dsim.x:" + b"b%d" % (ucount[0] - 1) + b"l" * 76, names[1]]
+                    sim.probe("resolve.three_long_names")
                 res2 = {}
 
                 def one(n):
                     res2[n] = call(llc[side].resolve, n)
-                t1 = k.spawn(one, names[0], name="resolver-a", daemon=True)
-                kernel.TIME.sleep(sim.pick("resolve2.gap", [0.0, 0.001, 0.004, 0.012]))
-                t2 = k.spawn(one, names[1], name="resolver-b", daemon=True)
+                ts = []
+                for j, n in enumerate(names):
+                    if j:
+                        kernel.TIME.sleep(sim.pick("resolve2.gap", [0.0, 0.001, 0.004, 0.012]))
+                    ts.append(k.spawn(one, n, name="resolver-%d" % j, daemon=True))
                 end = k.now() + 3.0
-                while (t1.state != kernel.DONE or t2.state != kernel.DONE) and k.now() < end:
+                while any(t.state != kernel.DONE for t in ts) and k.now() < end:
                     kernel.TIME.sleep(0.005)
-                for t, n in ((t1, names[0]), (t2, names[1])):
+                for t, n in zip(ts, names):
                     if t.exc is not None:
                         raise Violation("resolve-raised", core.exc_site(t.exc), "concurrent resolve(%r) raised %r (%s); history %r"
                                         % (n, t.exc, core.exc_line(t.exc), hist[-8:]))
